@@ -189,6 +189,7 @@ class FnSpec:
         self.foreachs = {}  # closure n -> (container expr, invariant text)   (R-FOREACH)
         self.foldloops = {}  # closure n -> (container expr, invariant text)   (R-FOLD)
         self.ats = []  # (arm pattern prefix, anchor text, 'before'|'after', ghost text): ghost text spliced at a statement boundary
+        self.liftcalls = {}  # closure n -> replacement text for the method call that takes it (R-LIFTCALL)
         self.orguard = False  # R-ORGUARD: `A | B if G => X` => `A if G => X, B if G => X`
 
 
@@ -528,6 +529,11 @@ class Generator:
                         cur = ("at", (un(m.group(1)), un(m.group(2)), m.group(3), (int(m.group(4)), int(m.group(5))) if m.group(4) else (1, 1)), None)
                     elif cmd == "orguard":
                         spec.orguard = True
+                    elif cmd == "liftcall":
+                        m = re.match(r'(\d+)\s+"((?:[^"\\]|\\.)*)"\s*$', arg)
+                        if not m:
+                            raise RuntimeError("bad liftcall directive: %r" % d)
+                        spec.liftcalls[int(m.group(1))] = m.group(2).replace('\\"', '"')
                     elif cmd == "fmloop":
                         cur = ("fmloop", int(arg), None)
                     elif cmd == "fmloopproof":
@@ -869,6 +875,13 @@ class Generator:
             else:
                 raise Undecided("optcomb: `.%s` with this shape is outside R-OPTCOMB" % nm)
             self.log.append({"rule": "R-OPTCOMB", "site": site, "what": "`.%s(closure %d)` inlined as %s" % (nm, n, "if/else" if nm == "then" else "match")})
+        # R-LIFTCALL: a method call whose last argument is a closure that is verified separately (R-LIFT) is replaced by a call of a
+        # stand-in whose contract composes the callee's proved contract with the lifted closure's (Verus rejects the closure
+        # itself: it captures a mutable reference)
+        for n, rep_text in spec.liftcalls.items():
+            c, call = clos_call(n)
+            common.append((call["span"][0], call["span"][1], rep_text))
+            self.log.append({"rule": "R-LIFTCALL", "site": site, "what": "`.%s(…, closure %d)` => `%s`" % (call["name"], n, rep_text)})
         # R-FOREACH: `X.iter_mut().for_each(|PAT| BODY)` => index loop handing out `&mut` to every item in order
         def split_top(txt):
             """`(a, (b, c))` -> ['a', '(b, c)'] (top-level commas of a parenthesised tuple pattern)"""
